@@ -227,6 +227,9 @@ def run(ck):
         ck.require("suite/ran_under_monitors")
     ck.note_add("attached_exp_calls", st["exp_calls"])
     ck.note_add("attached_skipped", st["skipped"])
+    if ck.shard == 0:
+        from .. import history
+        history.run(ck, "C01", reps=4 if ck.tier == "thorough" else 2)
     ck.floor("exp_attached", 50)
     ck.floor("exp_ld", 1000)
     ck.floor("exp_mp", 20)
